@@ -48,7 +48,7 @@ func corpusC08() []*case08 {
 			{Op: "drop", Idx: []int{0}}}},
 		// another plugin fails in the commit: cobalt rolls cpumem back with the Before it reported
 		// (escaped mutant: Before aliased the updated usage)
-		{Prop: "C08", Cap: numaNode4(), Ops: []op08{
+		{Prop: "C08", Cap: numaNode4(), Order: 1, Ops: []op08{
 			{Op: "alloc", K: 2, Req: &reqJ{Bind: true, CR: nano, MR: 100}},
 			{Op: "alloc", K: 1, Req: &reqJ{CR: nano / 2, MR: 300}, Fail: true},
 			{Op: "drop", Idx: []int{0}, Fail: true},
@@ -78,6 +78,13 @@ func corpusC09() []*case09 {
 		{Prop: "C09", Answers: []ans09{
 			{Name: "p0", Nodes: map[string]cap09{"n1": {Cap: 2, U: 512, R: 256, W: 0}}},
 			{Name: "p1", Nodes: map[string]cap09{"n1": {Cap: 10, U: 100, R: 50, W: 4}}}}},
+		// the caller gives up between the fast and the slow answer: error or the full merge, never a partial one
+		{Prop: "C09", Sched: &sched09{DelayMS: []int{0, 14}, CancelMS: 4}, Answers: []ans09{
+			{Name: "p0", Nodes: map[string]cap09{"n1": {Cap: 5, U: 512, R: 256, W: 4}, "n2": {Cap: 5, U: 512, R: 256, W: 4}}},
+			{Name: "p1", Nodes: map[string]cap09{"n1": {Cap: 2, U: 100, R: 50, W: 4}}}}},
+		{Prop: "C09", Sched: &sched09{DelayMS: []int{14, 0}, CancelMS: 4, Deadline: true}, Answers: []ans09{
+			{Name: "p0", Nodes: map[string]cap09{"n1": {Cap: 2, U: 100, R: 50, W: 4}}},
+			{Name: "p1", Nodes: map[string]cap09{"n1": {Cap: 5, U: 512, R: 256, W: 4}, "n2": {Cap: 5, U: 512, R: 256, W: 4}}}}},
 		{Prop: "C09", Answers: []ans09{
 			{Name: "p0", Nodes: map[string]cap09{"n0": {Cap: 7, U: 0, R: 0, W: 4}, "n1": {Cap: 9, U: 1, R: 1, W: 4}}},
 			{Name: "p1", Nodes: map[string]cap09{"n0": {Cap: 3, U: 2048, R: 1024, W: 0}}},
